@@ -139,18 +139,20 @@ type oracleReq struct {
 }
 
 type session struct {
-	d        *Driver
-	w        *world.World
-	r        *world.Run
-	chain    string
-	poolOff  map[string]int
-	prices   map[string]uint64
-	oracles  []oracleReq
-	tunnels  []uint64
-	raws     map[uint64][]oracletypes.RawRequest
-	pending  []pendingReport
-	sigc     uint64
-	interest bool
+	d         *Driver
+	w         *world.World
+	r         *world.Run
+	chain     string
+	poolOff   map[string]int
+	prices    map[string]uint64
+	oracles   []oracleReq
+	tunnels   []uint64
+	raws      map[uint64][]oracletypes.RawRequest
+	pending   []pendingReport
+	preTr     bandtsstypes.GroupTransition // the transition record before the current step
+	havePreTr bool
+	sigc      uint64
+	interest  bool
 }
 
 func (s *session) rel(t int64) int { return small(t - s.w.Cfg.GenesisTime.Unix()) }
@@ -357,16 +359,25 @@ func (s *session) collect(user *userReq) []tf.M {
 		it["dec"], it["mh"] = dec.M(), shortHash(sg.Message)
 		key := "unknown"
 		bid := bk.GetSigningIDMapping(ctx, tss.SigningID(id))
-		if tr, ok := bk.GetGroupTransition(ctx); ok && uint64(tr.SigningID) == id && bid == 0 {
-			// the hand-over message of a group transition
-			req := bk.GetBandtssAccount(ctx).GetAddress().String()
-			pk := []byte{}
-			if g, err := tk.GetGroup(ctx, tr.IncomingGroupID); err == nil {
-				pk = g.PubKey
+		if bid == 0 {
+			// no bandtss request record: the only module path that puts a message to the group directly is the hand-over
+			// message of a group transition (bandtss CreateTransitionSigning).  The transition it belongs to is read from
+			// the store after the step (its SigningID names this signing) or, if the same end-block already dropped or
+			// executed it, from the record as it was before the step.
+			tr, ok := bk.GetGroupTransition(ctx)
+			if !ok || uint64(tr.SigningID) != id {
+				tr, ok = s.preTr, s.havePreTr && s.preTr.Status == bandtsstypes.TRANSITION_STATUS_CREATING_GROUP
 			}
-			it["src"], it["o"], it["ohx"] = "transition", directO(s.chain, req, ""), DirectHash(s.chain, req, "")
-			it["c"] = tf.M{"kind": "transition", "enc": "-", "f": tf.M{"pk": ints(pk), "execT": s.rel(tr.ExecTime.Unix())}}
-			key = "transition"
+			if ok {
+				req := bk.GetBandtssAccount(ctx).GetAddress().String()
+				pk := []byte{}
+				if g, err := tk.GetGroup(ctx, tr.IncomingGroupID); err == nil {
+					pk = g.PubKey
+				}
+				it["src"], it["o"], it["ohx"] = "transition", directO(s.chain, req, ""), DirectHash(s.chain, req, "")
+				it["c"] = tf.M{"kind": "transition", "enc": "-", "f": tf.M{"pk": ints(pk), "execT": s.rel(tr.ExecTime.Unix())}}
+				key = "transition"
+			}
 		} else if bid != 0 {
 			found := false
 			// an oracle result: the oracle module links request -> bandtss signing
@@ -492,6 +503,7 @@ func (d *Driver) RunScript(sc tf.Script) {
 	d.Events++
 	for _, step := range sc.Steps {
 		s.topUp()
+		s.preTr, s.havePreTr = w.App.BandtssKeeper.GetGroupTransition(s.r.Ctx)
 		s.apply(step)
 		d.Events++
 	}
@@ -797,7 +809,7 @@ func RandomScript(rng *rand.Rand, mode string) tf.Script {
 		out := []string{}
 		for i := 0; i < n; i++ {
 			sg := sigDom[rng.Intn(len(sigDom))]
-			if mode != "nonul" && rng.Intn(120) == 0 {
+			if mode != "nonul" && rng.Intn(200) == 0 {
 				sg = "\x00s1"
 			}
 			out = append(out, sg)
